@@ -38,6 +38,7 @@ type rxLog struct {
 	lastNew  map[int64]interface{} // goroutine -> node pointer of the resource it created last
 	inRunOf  map[int]int       // node index -> rerunner (while its run is in progress)
 	problems []string
+	foreign  int
 	curKind  string
 	r        *Rand
 	perturb  bool
@@ -65,8 +66,34 @@ func (l *rxLog) nodeOf(p interface{}) int {
 	return i
 }
 
+// known: the event is about objects created in this scenario (goroutines of an earlier scenario
+// may still be finishing releases when the next one has installed its hook)
+func (l *rxLog) known(kind string, a, b interface{}) bool {
+	switch kind {
+	case "node.new", "comp.new", "rr.new":
+		return true
+	case "rr.enter", "rr.skip", "rr.exitfail", "rr.exitretry", "rr.cancel", "rr.stop":
+		_, ok := l.rrs[a]
+		return ok
+	}
+	if _, ok := l.nodes[a]; !ok {
+		return false
+	}
+	if b != nil {
+		if _, ok := l.nodes[b]; !ok {
+			return false
+		}
+	}
+	return true
+}
+
 func (l *rxLog) hook(kind string, a, b interface{}) {
 	l.mu.Lock()
+	if !l.known(kind, a, b) {
+		l.foreign++
+		l.mu.Unlock()
+		return
+	}
 	atomic.AddInt64(&l.events, 1)
 	l.curKind = kind
 	switch kind {
@@ -429,7 +456,13 @@ func c04Scenario(c *Ctx, cs c04Case) (labels []rxLabel, verdict string, detail m
 	for _, rn := range runners {
 		rn.rr.Stop()
 	}
-	time.Sleep(5 * time.Millisecond)
+	for i := 0; i < 100; i++ {
+		before := atomic.LoadInt64(&log.events)
+		time.Sleep(4 * time.Millisecond)
+		if atomic.LoadInt64(&log.events) == before {
+			break
+		}
+	}
 	log.mu.Lock()
 	log.perturb = false
 	labels = append([]rxLabel{}, log.labels...)
